@@ -2,9 +2,12 @@
 (* Mutation / modification requests (vermouth.processors.annotate_mut_mod).
    Part 1  residue specifications "[<chain>-][<resname>][[#]<resid>]" over character sequences:
            ParseOp (the implementation's splitting) and Format (the inverse); law Parse(Format(t)) = t.
-   Part 2  which residues a request marks, which requests are reported as unmatched, when the run is an error.
+   Part 2  which residues a request marks, which requests are reported as unmatched, when the run is an error.  Requests are
+           given as the TEXT of their specification; TLC parses it with ParseOp (Part 1), so that no second parser exists.
+   Part 3  the command line of bin/martinize2: which request list the options amount to; the written topology.
    system   == Seq(molecule);  molecule == [res : Seq([chain, resname, resid, icode, protein : BOOLEAN]), edges : Seq(<<i, j>>)]
-   request  == [chain, resname, resid, target, known : BOOLEAN, kind : "modification" | "mutation"]   ("" / -1 = part not given) *)
+               chain and resname are sequences of one-character strings (as the specification is)
+   request  == [chain, resname, resid, digits, bad, target, kind : "modification" | "mutation"]  (ReqS; NOCHAIN / <<>> / -1 = part not given) *)
 EXTENDS Integers, Sequences, FiniteSets, TLC
 
 Digits == {"0", "1", "2", "3", "4", "5", "6", "7", "8", "9"}
@@ -45,20 +48,124 @@ IsTerminus(m, i, which) ==
   /\ Degree(m, i) = 1 /\ m.res[i].protein
   /\ IF which = "nter" THEN m.res[i].resid < m.res[Neighbour(m, i)].resid ELSE m.res[i].resid > m.res[Neighbour(m, i)].resid
 
-\* every GIVEN part must agree; nter/cter stand for the terminal rule and then replace name and number
-Matches(rq, m, i) ==
-  LET r == m.res[i] IN
-  IF rq.resname \in {"nter", "cter"} /\ Degree(m, i) = 1
-  THEN IsTerminus(m, i, rq.resname) /\ (rq.chain = "" \/ rq.chain = r.chain)
-  ELSE /\ (rq.chain = "" \/ rq.chain = r.chain)
-       /\ (rq.resname = "" \/ rq.resname = r.resname)
-       /\ (rq.resid = -1 \/ rq.resid = r.resid)
+Nter == <<"n", "t", "e", "r">>
+Cter == <<"c", "t", "e", "r">>
+NoneT == <<"n", "o", "n", "e">>
+\* pair = <<specification, target>>, both character sequences
+ReqS(pair, kind) == LET p == ParseOp(pair[1]) IN
+  [chain |-> p.chain, resname |-> p.resname, resid |-> IF p.resid = <<>> THEN -1 ELSE ToInt(p.resid), digits |-> p.resid, bad |-> p.bad,
+   target |-> pair[2], kind |-> kind]
 
-MatchesAnywhere(rq, system) == \E k \in DOMAIN system : \E i \in DOMAIN system[k].res : Matches(rq, system[k], i)
-IsError(system, reqs) == \E q \in DOMAIN reqs : ~reqs[q].known /\ reqs[q].target # "none" /\ MatchesAnywhere(reqs[q], system)
-Unmatched(system, reqs) == {q \in DOMAIN reqs : ~MatchesAnywhere(reqs[q], system)}
+\* every GIVEN part must agree (a part is given iff the parser produced it: an empty chain before "-" is a given, empty chain);
+\* nter / cter stand for the terminal rule and then replace name and number; the insertion code is never part of a request
+MatchesS(rq, m, i) ==
+  LET r == m.res[i] IN
+  IF rq.resname \in {Nter, Cter} /\ Degree(m, i) = 1
+  THEN IsTerminus(m, i, IF rq.resname = Nter THEN "nter" ELSE "cter") /\ (rq.chain = NOCHAIN \/ rq.chain = r.chain)
+  ELSE /\ (rq.chain = NOCHAIN \/ rq.chain = r.chain)
+       /\ (rq.resname = <<>> \/ rq.resname = r.resname)
+       /\ (rq.resid = -1 \/ rq.resid = r.resid)
+MatchesAnywhereS(rq, system) == \E k \in DOMAIN system : \E i \in DOMAIN system[k].res : MatchesS(rq, system[k], i)
+UnmatchedS(system, reqs) == {q \in DOMAIN reqs : ~MatchesAnywhereS(reqs[q], system)}
 \* marks of residue i of molecule k for one kind, in request order
-Marks(system, reqs, k, i, kind) ==
-  LET idx == SelectSeq([q \in DOMAIN reqs |-> q], LAMBDA q : reqs[q].kind = kind /\ Matches(reqs[q], system[k], i))
+MarksS(system, reqs, k, i, kind) ==
+  LET idx == SelectSeq([q \in DOMAIN reqs |-> q], LAMBDA q : reqs[q].kind = kind /\ MatchesS(reqs[q], system[k], i))
   IN [j \in DOMAIN idx |-> reqs[idx[j]].target]
+\* how an unmatched request is named in its report: the specification as documented, the kind, the target
+\* (a given but empty chain is not written in the report; how a report words the request is not part of the statement)
+ReportOf(rq) == <<Format(IF rq.chain = <<>> THEN NOCHAIN ELSE rq.chain, rq.resname, rq.digits), rq.kind, rq.target>>
+CountIn(seq, x) == Cardinality({i \in DOMAIN seq : seq[i] = x})
+\* K(q): the target of request q is a block / modification of the force field
+UnknownTargetError(system, reqs, K(_)) == \E q \in DOMAIN reqs : reqs[q].target # NoneT /\ ~K(q) /\ MatchesAnywhereS(reqs[q], system)
+
+(* the judgement shared by library-level and command-line runs.  reported : Seq(<<specification as logged, kind, target>>);
+   marksMod / marksMut : per molecule, per residue, Seq(target) (<< <<"!">> >> when the atoms of a residue disagree); err : the run raised NameError *)
+JudgeMarks(system, reqs, K(_), err, reported, marksMod, marksMut) ==
+  LET um == UnmatchedS(system, reqs)
+      umSeq == SelectSeq([q \in DOMAIN reqs |-> q], LAMBDA q : q \in um)
+      exp == [j \in DOMAIN umSeq |-> ReportOf(reqs[umSeq[j]])]
+  IN IF \E q \in DOMAIN reqs : reqs[q].bad THEN "unjudged:specification-outside-the-grammar"
+     ELSE IF UnknownTargetError(system, reqs, K) THEN (IF err THEN "ok" ELSE "unknown-target-not-an-error")
+     ELSE IF err THEN "run-failed-without-unknown-target"
+     ELSE IF \E j \in DOMAIN exp : CountIn(reported, exp[j]) < CountIn(exp, exp[j]) THEN "unmatched-request-not-reported"
+     ELSE IF \E i \in DOMAIN reported : CountIn(exp, reported[i]) = 0 THEN "matched-request-reported-as-unmatched"
+     ELSE IF \E i \in DOMAIN reported : CountIn(reported, reported[i]) > CountIn(exp, reported[i]) THEN "request-reported-twice"
+     ELSE IF \E k \in DOMAIN system : \E i \in DOMAIN system[k].res :
+                marksMod[k][i] # MarksS(system, reqs, k, i, "modification") \/ marksMut[k][i] # MarksS(system, reqs, k, i, "mutation")
+          THEN "residue-marks-differ"
+     ELSE "ok"
+\* what a run exercised (vacuity rule of the driver), a string of letters:
+\*   m some residue marked, u some request unmatched, e unknown-target error, i one request marks two residues that differ only by
+\*   insertion code, s one request marks residues of the same number in two chains, t a terminus marked, x a chain-qualified request
+\*   marks a residue and leaves the same-numbered, same-named residue of another chain alone, d one residue marked twice for one kind
+NoteMarks(system, reqs, K(_)) ==
+  LET all == UNION {{<<k, i>> : i \in DOMAIN system[k].res} : k \in DOMAIN system}
+      hit(q) == {x \in all : MatchesS(reqs[q], system[x[1]], x[2])}
+      R(x) == system[x[1]].res[x[2]]
+  IN IF \E q \in DOMAIN reqs : reqs[q].bad THEN "-"
+     ELSE (IF \E q \in DOMAIN reqs : hit(q) # {} THEN "m" ELSE "")
+       \o (IF UnmatchedS(system, reqs) # {} THEN "u" ELSE "")
+       \o (IF UnknownTargetError(system, reqs, K) THEN "e" ELSE "")
+       \o (IF \E q \in DOMAIN reqs : \E x, y \in hit(q) : x # y /\ R(x).chain = R(y).chain /\ R(x).resid = R(y).resid /\ R(x).icode # R(y).icode THEN "i" ELSE "")
+       \o (IF \E q \in DOMAIN reqs : \E x, y \in hit(q) : x # y /\ R(x).chain # R(y).chain /\ R(x).resid = R(y).resid THEN "s" ELSE "")
+       \o (IF \E q \in DOMAIN reqs : reqs[q].resname \in {Nter, Cter} /\ hit(q) # {} THEN "t" ELSE "")
+       \o (IF \E q \in DOMAIN reqs : reqs[q].chain # NOCHAIN /\ \E x \in hit(q) : \E y \in all \ hit(q) :
+                 R(y).resid = R(x).resid /\ R(y).resname = R(x).resname /\ R(y).chain # R(x).chain THEN "x" ELSE "")
+       \o (IF \E x \in all : \E kind \in {"modification", "mutation"} : Len(MarksS(system, reqs, x[1], x[2], kind)) >= 2 THEN "d" ELSE "")
+
+(* library-level run of AnnotateMutMod: e.reqs : Seq([spec, target, kind, known]) in the order the processor handles them *)
+RunReqs(e) == [q \in DOMAIN e.reqs |-> ReqS(<<e.reqs[q].spec, e.reqs[q].target>>, e.reqs[q].kind)]
+JudgeRunS(e) == LET K(q) == e.reqs[q].known IN JudgeMarks(e.system, RunReqs(e), K, e.err, e.reported, e.mods, e.muts)
+NoteRunS(e) == LET K(q) == e.reqs[q].known IN NoteMarks(e.system, RunReqs(e), K)
+
+(* ---- Part 3: the command line (bin/martinize2 -mutate / -modify / -nter / -cter / -nt) ----
+   A request is <<specification, target>> as written on the command line ("-mutate A-PHE45:ALA" is <<"A-PHE45", "ALA">>;
+   "-nter X" is <<"nter", X>>; "-cter X" is <<"cter", X>>).  Modifications: the user's requests in command-line order, then "-nt"
+   appends cter:COOH-ter and nter:NH2-ter; without "-nt" the charged termini cter:C-ter / nter:N-ter are appended unless a user
+   specification already mentions "cter" / "nter".  Mutations follow the modifications.                                  *)
+ContainsSeq(s, sub) == \E i \in 0..(Len(s) - Len(sub)) : SubSeq(s, i + 1, i + Len(sub)) = sub
+CliMods(user, nt) ==
+  IF nt THEN user \o << <<Cter, <<"C","O","O","H","-","t","e","r">> >>, <<Nter, <<"N","H","2","-","t","e","r">> >> >>
+  ELSE user \o (IF \E i \in DOMAIN user : ContainsSeq(user[i][1], Cter) THEN <<>> ELSE << <<Cter, <<"C","-","t","e","r">> >> >>)
+            \o (IF \E i \in DOMAIN user : ContainsSeq(user[i][1], Nter) THEN <<>> ELSE << <<Nter, <<"N","-","t","e","r">> >> >>)
+CliReqs(e) == LET m == CliMods(e.mods, e.nt) IN
+  [q \in DOMAIN m |-> ReqS(m[q], "modification")] \o [q \in DOMAIN e.muts |-> ReqS(e.muts[q], "mutation")]
+KnownTarget(e, rq) == LET lib == IF rq.kind = "mutation" THEN e.knownBlocks ELSE e.knownMods IN \E j \in DOMAIN lib : lib[j] = rq.target
+\* two different mutations on one residue cannot both be carried out: the run must fail (in RepairGraph)
+ConflictError(e, reqs) == \E k \in DOMAIN e.system : \E i \in DOMAIN e.system[k].res :
+                             LET mu == MarksS(e.system, reqs, k, i, "mutation") IN \E a, b \in DOMAIN mu : mu[a] # mu[b]
+
+(* e : [mods, muts : Seq(<<spec, target>>), nt, knownBlocks, knownMods : Seq(target), system (recorded right after AnnotateMutMod),
+        marksMod, marksMut, reported as in JudgeMarks, outcome : "annotate-error" | "repair-error" | "done" | "other-error"]  *)
+JudgeCli(e) ==
+  LET reqs == CliReqs(e)
+      K(q) == KnownTarget(e, reqs[q])
+      v == JudgeMarks(e.system, reqs, K, e.outcome = "annotate-error", e.reported, e.marksMod, e.marksMut)
+  IN IF v # "ok" \/ e.outcome = "annotate-error" THEN v
+     ELSE IF ConflictError(e, reqs) THEN (IF e.outcome = "repair-error" THEN "ok" ELSE "conflicting-mutations-not-an-error")
+     ELSE IF e.outcome = "repair-error" THEN "repair-failed-without-conflicting-mutations"
+     ELSE IF e.outcome # "done" THEN "unjudged:run-failed-after-repair"
+     ELSE "ok"
+NoteCli(e) == LET reqs == CliReqs(e)
+                  K(q) == KnownTarget(e, reqs[q])
+              IN NoteMarks(e.system, reqs, K) \o (IF \A q \in DOMAIN reqs : ~reqs[q].bad THEN (IF ConflictError(e, reqs) THEN "c" ELSE "") ELSE "")
+
+(* the written coarse-grained topology: molecule k of the kept molecules <-> the k-th written molecule type; residue by position.
+   e.mols : Seq(Seq([resname, muts : Seq(target)]))  (strings), e.itps : Seq(Seq([resname, beads : Seq(name)])),
+   e.cg : Seq([name, beads]) blocks of the target force field for the names that occur                                    *)
+JudgeItp(e) ==
+  LET has(nm) == \E j \in DOMAIN e.cg : e.cg[j].name = nm
+      beads(nm) == LET b == e.cg[CHOOSE j \in DOMAIN e.cg : e.cg[j].name = nm].beads IN {b[j] : j \in DOMAIN b}
+      want(r) == IF r.muts # <<>> THEN r.muts[1] ELSE r.resname
+  IN IF Len(e.itps) # Len(e.mols) THEN "number-of-written-molecule-types-differs"
+     ELSE IF \E k \in DOMAIN e.mols : Len(e.itps[k]) # Len(e.mols[k]) THEN "number-of-residues-in-the-topology-differs"
+     ELSE IF \E k \in DOMAIN e.mols : \E i \in DOMAIN e.mols[k] : e.mols[k][i].muts # <<>> /\ e.itps[k][i].resname # want(e.mols[k][i])
+          THEN "mutated-residue-has-the-wrong-name-in-the-topology"
+     ELSE IF \E k \in DOMAIN e.mols : \E i \in DOMAIN e.mols[k] : e.mols[k][i].muts # <<>> /\ has(want(e.mols[k][i]))
+                 /\ {e.itps[k][i].beads[j] : j \in DOMAIN e.itps[k][i].beads} # beads(want(e.mols[k][i]))
+          THEN "mutated-residue-has-the-wrong-beads-in-the-topology"
+     ELSE IF \E k \in DOMAIN e.mols : \E i \in DOMAIN e.mols[k] : e.mols[k][i].muts = <<>> /\ has(e.mols[k][i].resname)
+                 /\ (e.itps[k][i].resname # e.mols[k][i].resname \/ {e.itps[k][i].beads[j] : j \in DOMAIN e.itps[k][i].beads} # beads(e.mols[k][i].resname))
+          THEN "unrequested-residue-changed-in-the-topology"
+     ELSE "ok"
 =============================================================================
